@@ -1,6 +1,5 @@
 package vsim
 
-
 import (
 	"fmt"
 	"reflect"
@@ -573,50 +572,53 @@ func parseHistFilter(kw wamp.Dict, refs map[int]MetaRef) (f histFilter, bad bool
 	return f, false
 }
 
+// histItem takes one element of a get_events answer apart: local clients get
+// the router's own Go values, serialised clients get dicts.
+func histItem(a any) (pub wamp.ID, args wamp.List, kw wamp.Dict, topic string) {
+	if d, ok := wamp.AsDict(a); ok {
+		get := func(keys ...string) any {
+			for _, k := range keys {
+				if v, ok := d[k]; ok {
+					return v
+				}
+			}
+			return nil
+		}
+		pub, _ = wamp.AsID(get("Publication", "publication"))
+		args, _ = wamp.AsList(get("Arguments", "arguments", "args"))
+		kw, _ = wamp.AsDict(get("ArgumentsKw", "argumentskw", "kwargs"))
+		if det, ok := wamp.AsDict(get("Details", "details")); ok {
+			topic, _ = wamp.AsString(det["topic"])
+		}
+	} else {
+		v := reflect.ValueOf(a)
+		if v.Kind() == reflect.Struct {
+			if f := v.FieldByName("Publication"); f.IsValid() {
+				pub = wamp.ID(f.Uint())
+			}
+			if f := v.FieldByName("Arguments"); f.IsValid() && f.CanInterface() {
+				args, _ = f.Interface().(wamp.List)
+			}
+			if f := v.FieldByName("ArgumentsKw"); f.IsValid() && f.CanInterface() {
+				kw, _ = f.Interface().(wamp.Dict)
+			}
+			if f := v.FieldByName("Details"); f.IsValid() && f.CanInterface() {
+				if det, ok := f.Interface().(wamp.Dict); ok {
+					topic, _ = wamp.AsString(det["topic"])
+				}
+			}
+		}
+	}
+	return
+}
+
 // histRender renders the events of a get_events RESULT: local clients get the
 // router's own Go values, serialised clients get dicts.
 func histRender(req wamp.ID) MetaRender {
 	return func(b *Binder, r *wamp.Result) string {
 		var parts []string
 		for _, a := range r.Arguments {
-			var pub wamp.ID
-			var args wamp.List
-			var kw wamp.Dict
-			topic := ""
-			if d, ok := wamp.AsDict(a); ok {
-				get := func(keys ...string) any {
-					for _, k := range keys {
-						if v, ok := d[k]; ok {
-							return v
-						}
-					}
-					return nil
-				}
-				pub, _ = wamp.AsID(get("Publication", "publication"))
-				args, _ = wamp.AsList(get("Arguments", "arguments", "args"))
-				kw, _ = wamp.AsDict(get("ArgumentsKw", "argumentskw", "kwargs"))
-				if det, ok := wamp.AsDict(get("Details", "details")); ok {
-					topic, _ = wamp.AsString(det["topic"])
-				}
-			} else {
-				v := reflect.ValueOf(a)
-				if v.Kind() == reflect.Struct {
-					if f := v.FieldByName("Publication"); f.IsValid() {
-						pub = wamp.ID(f.Uint())
-					}
-					if f := v.FieldByName("Arguments"); f.IsValid() && f.CanInterface() {
-						args, _ = f.Interface().(wamp.List)
-					}
-					if f := v.FieldByName("ArgumentsKw"); f.IsValid() && f.CanInterface() {
-						kw, _ = f.Interface().(wamp.Dict)
-					}
-					if f := v.FieldByName("Details"); f.IsValid() && f.CanInterface() {
-						if det, ok := f.Interface().(wamp.Dict); ok {
-							topic, _ = wamp.AsString(det["topic"])
-						}
-					}
-				}
-			}
+			pub, args, kw, topic := histItem(a)
 			p := fmt.Sprintf("P?%d", pub)
 			if s, ok := b.pub[pub]; ok {
 				p = symP(s)
